@@ -342,7 +342,7 @@ theorem IdInv_step {s s' : St} {a : Act} (inv : IdInv s) (h : step? s a = some s
       simp only [hd, dispItems] at h1 h2
       rw [cnt_cons_eq] at h1 h2
       split at h
-      · simp only [Option.some.injEq] at h; subst h; simp [cntAll, dispItems]; omega
+      · split at h <;> (simp only [Option.some.injEq] at h; subst h; simp [cntAll, dispItems]; omega)
       · simp at h
     · simp at h
   case dequeue id =>
